@@ -191,6 +191,16 @@ mod private {
                 if a != wa || b != wb {
                     shared_err = Some(format!("a word against the run-together view starting at the same character gives {} / {} instead of {} / {}", a, b, wa, wb));
                 }
+                // the run-together view made by hand: the first word's view with its public `slice` widened over both words
+                let mut wide = both.view(0);
+                wide.slice.1 = both.view(1).slice.1;
+                wide.fin = joined.fin;
+                let (ha, hb) = (DamerauLevenshtein::new().distance(&both.view(0), &wide), DamerauLevenshtein::new().distance(&wide, &both.view(1)));
+                let (ja, jb) = (DamerauLevenshtein::new().distance(&both.view(0), &joined), DamerauLevenshtein::new().distance(&joined, &both.view(1)));
+                cx.count("calls on a view whose slice was widened after it was built");
+                if shared_err.is_none() && (ha != ja || hb != jb) {
+                    shared_err = Some(format!("a view widened by hand over both words gives {} / {} where the joined view gives {} / {}", ha, hb, ja, jb));
+                }
             }
         }
         // the same two words as the tokeniser hands them over when a letter was expanded ('ß' -> "ss"): the ORIGINAL text
@@ -532,6 +542,21 @@ mod private {
                 let _ = run(&joined, &both.view(0));
                 let _ = run(&joined, &both.view(1));
                 let _ = run(&both.view(1), &both.view(1));
+                // a view widened by hand after it was built (its public `slice` now spans both words, as `join` makes it):
+                // sizes must follow the view as it is when the call is made
+                let mut wide = both.view(0);
+                wide.slice.1 = both.view(1).slice.1;
+                let _ = run(&wide, &both.view(1));
+                let _ = run(&both.view(1), &wide);
+                let mut narrow = both.view(1);
+                narrow.slice.0 = narrow.slice.1 - 1;
+                let _ = run(&narrow, &wide);
+                // ... and on an instance that has never been sized for anything longer
+                let untouched = DamerauLevenshtein::new();
+                let _ = untouched.distance(&wide, &narrow);
+                let untouched = DamerauLevenshtein::new();
+                let _ = untouched.distance(&narrow, &wide);
+                cx.count("direct calls on a view whose slice was changed after it was built");
                 let kk = (c1.len() / 2).max(1);
                 let _ = JC.with(|j| j.similarity(&c1[..kk], &c1));
                 let _ = JC.with(|j| j.similarity(&c1, &c1[kk - 1..]));
